@@ -19,6 +19,8 @@ pub use runtime::{Appender, Config, Logger, Root};
 pub use self::file::{init_file, load_config_file, FormatError};
 #[cfg(feature = "config_parsing")]
 pub use self::raw::{Deserializable, Deserialize, Deserializers, RawConfig};
+#[cfg(all(log4rs_verif, feature = "config_parsing"))]
+pub use self::file::VerifReloader;
 
 /// Initializes the global logger as a log4rs logger with the provided config.
 ///
